@@ -16,6 +16,9 @@ CONSTANTS
  MaxMergeInputs = 0
  AsyncRelease = FALSE
   WithMergeFail = FALSE
+ MaxRestarts = 0
+ SidFromRoot = FALSE
+ ForgetInherited = FALSE
  BuilderBase = FALSE
  CopySchedById = FALSE
  MaxOpens = 3
